@@ -108,7 +108,7 @@ def run(name, props):
         print(name, "patch does not apply"); return
     results = meta.get("checks", {})
     for p in props:
-        env = dict(os.environ, VERIF_REPO=wt, VERIF_TARGET=os.path.join(SCRATCH, "verif-target"), VERIF_OUT_TAG=TAG)
+        env = dict(os.environ, VERIF_REPO=wt, VERIF_TARGET=os.path.join(SCRATCH, "verif-target"), VERIF_OUT_TAG=TAG, VERIF_SIM_DIR=SIM_SNAPSHOT)
         t0 = time.time()
         r = sh([os.path.join(ROOT, "check"), p, "--no-evidence"] + EXTRA, env=env, cwd=ROOT)
         sigs = re.findall(r"VIOLATION property=(\S+) replay=(\S+)", r.stdout)
@@ -126,6 +126,14 @@ def run(name, props):
 
 
 EXTRA = []
+SIM_SNAPSHOT = os.path.join(SCRATCH, "sim-snapshot")
+
+
+def snapshot_sim():
+    # the harness sources as they are now: later edits in /verif/sim do not disturb a long evaluation
+    os.makedirs(SCRATCH, exist_ok=True)
+    sh(["rm", "-rf", SIM_SNAPSHOT])
+    sh(["cp", "-r", os.path.join(ROOT, "sim"), SIM_SNAPSHOT])
 
 
 def main():
@@ -155,6 +163,7 @@ def main():
             elif args[i] == "--props": props_arg = args[i + 1].split(","); i += 2; all_props = props_arg
             elif args[i] in ("--runs", "--tier", "--seed"): EXTRA += [args[i], args[i + 1]]; i += 2
             else: names.append(args[i]); i += 1
+        snapshot_sim()
         for n in names:
             meta = load_meta(n)
             props = ALL_PROPS if all_props is True else (all_props if all_props else [meta["property"]])
